@@ -3,6 +3,7 @@ against contracts/<unit>.spec relative to the line map's contract.
   semtok (C19): convert::to_semantic_tokens, to_range, semantic_tokens::to_semantic_type_and_modifiers
   conv   (C15): convert::from_pos, from_range"""
 import os
+import re
 import shutil
 
 import extract_conv
@@ -11,6 +12,7 @@ import extract_vfs
 import extract_lmap
 import extract_fileset
 import extract_diag
+import extract_pmod
 import weave
 from common import VERIF, REPO, scratch, Undecided
 from rustcut import AnchorLost
@@ -85,14 +87,24 @@ UNITS['diag'] = {
          'old': '        Self::new(err.range, DiagnosticKind::SyntaxError(err.kind))', 'new': '        Self::new(TextRange::new(0.into(), err.range.end()), DiagnosticKind::SyntaxError(err.kind))'},
     ],
 }
-COPY_DIRS = ('crates/glas/src', 'crates/ide/src/ide', 'crates/ide/src/base.rs', 'crates/ide/src/diagnostic.rs')
+UNITS['pmod'] = {
+    'extract': extract_pmod, 'spec': 'contracts/parser.spec', 'prelude': 'contracts/pmod_prelude.rs',
+    'reach': ('proof fn reach_probe(raw: Seq<LexToken>)\n    requires raw.len() >= 2, is_tok(raw[0].kind), is_trivia_spec(raw[0].kind), is_tok(raw[1].kind), !is_trivia_spec(raw[1].kind),\n{ assert(false); }\n'),
+    'canaries': [
+        {'name': 'verus: parse_module filters whitespace only (doc comments reach the parser)', 'file': 'crates/syntax/src/parser.rs',
+         'old': '        .filter(|&t| !t.kind.is_trivia())', 'new': '        .filter(|&t| !t.kind.is_whitespace())'},
+    ],
+}
+COPY_DIRS = ('crates/glas/src', 'crates/ide/src/ide', 'crates/ide/src/base.rs', 'crates/ide/src/diagnostic.rs', 'crates/syntax/src')
 
 
-def build(unit, repo, outdir):
+def build(unit, repo, outdir, dropped_opt=None):
     u = UNITS[unit]
     ex = u['extract'].extract(repo)
     fns, loops = weave.parse_spec(open(os.path.join(VERIF, u['spec'])).read())
+    loops.dropped_optional = set(dropped_opt or ())
     text, linemap, info = u['extract'].assemble(ex, open(os.path.join(VERIF, u['prelude'])).read(), fns, loops)
+    info['optional_clauses_dropped'] = sorted(loops.dropped_optional)
     os.makedirs(outdir, exist_ok=True)
     path = os.path.join(outdir, '%s_unit.rs' % unit)
     open(path, 'w').write(text)
@@ -106,6 +118,21 @@ def run(unit, repo=REPO, tag=None):
         ex, text, linemap, info, path = build(unit, repo, os.path.join(scratch(), tag or unit))
         fns, loops = weave.parse_spec(open(os.path.join(VERIF, UNITS[unit]['spec'])).read())
         res = verus(path, multiple_errors=10, threads=4)
+        # optional clauses (`/*@opt:ID*/`, written with ensures_optional) that the code does not establish are pruned Houdini-style
+        dropped = set()
+        for _ in range(4):
+            ulines = text.split('\n')
+            newly = set()
+            for f in res['failures']:
+                if f['line'] and f['message'].startswith('postcondition'):
+                    om = re.search(r'/\*@(opt:[^*]+)\*/', ulines[f['line'] - 1])
+                    if om:
+                        newly.add(om.group(1))
+            if not newly - dropped:
+                break
+            dropped |= newly
+            ex, text, linemap, info, path = build(unit, repo, os.path.join(scratch(), tag or unit), dropped)
+            res = verus(path, multiple_errors=10, threads=4)
     except (AnchorLost, weave.SpecError, Undecided, OSError) as e:
         return {'unit': unit, 'status': 'undecided', 'why': str(e)[:800]}
     fails = []
@@ -138,7 +165,7 @@ def run(unit, repo=REPO, tag=None):
     return {'unit': unit, 'status': 'failed' if fails else 'verified', 'reachability_guard': reach,
             'verified': res['verified'], 'errors': res['errors'], 'failures': fails,
             'cmd': res['cmd'], 'smt_ms': res['smt_ms'], 'total_ms': res['total_ms'], 'wall_s': res['wall_s'],
-            'functions_under_contract': info['contracted'], 'loops_under_contract': info['loops_contracted'], 'bridged_contracts': info.get('bridged_contracts'),
+            'functions_under_contract': info['contracted'], 'loops_under_contract': info['loops_contracted'], 'bridged_contracts': info.get('bridged_contracts'), 'optional_clauses_dropped': info.get('optional_clauses_dropped'),
             'rewrites': ex['notes'], 'legend': ex.get('legend'), 'assumptions_scanned': prop_parser.scan_assumptions(text),
             'per_function_ms': {k: round(v['ms'], 1) for k, v in sorted(res['func_times'].items())}}
 
